@@ -48,7 +48,10 @@ pub fn configs(tier: Tier) -> Vec<Box<dyn Config>> {
         let mut s = (0..28).map(MapOp::Insert).collect::<Vec<_>>();
         s.extend((0..20).map(MapOp::Remove));
         seeds.push(s);
-        v.push(cfg::<TKey, TVal>(Plan::Zero, 30, Some(seeds), Some(if q { 1 } else { 2 }), tier, "-seeded"));
+        v.push(cfg::<TKey, TVal>(Plan::Zero, 30, Some(seeds.clone()), Some(if q { 1 } else { 2 }), tier, "-seeded"));
+        // one key per bucket: absent keys whose probe starts at an EMPTY slot next to tombstones
+        v.push(cfg::<PKey, PVal>(Plan::Seq, 31, Some(seeds.clone()), Some(1), tier, "-seeded"));
+        v.push(cfg::<TKey, TVal>(Plan::Tail, 30, Some(seeds), Some(1), tier, "-seeded"));
     } else {
         v.push(cfg::<TKey, TVal>(Plan::Zero, if q { 9 } else { 12 }, None, None, tier, ""));
         v.push(cfg::<PKey, PVal>(Plan::Cluster(2), if q { 4 } else { 6 }, None, None, tier, ""));
@@ -56,7 +59,9 @@ pub fn configs(tier: Tier) -> Vec<Box<dyn Config>> {
         let mut s = (0..14).map(MapOp::Insert).collect::<Vec<_>>();
         s.extend((0..10).map(MapOp::Remove));
         seeds.push(s);
-        v.push(cfg::<TKey, TVal>(Plan::Zero, 16, Some(seeds), Some(if q { 1 } else { 2 }), tier, "-seeded"));
+        v.push(cfg::<TKey, TVal>(Plan::Zero, 16, Some(seeds.clone()), Some(if q { 1 } else { 2 }), tier, "-seeded"));
+        v.push(cfg::<PKey, PVal>(Plan::Seq, 16, Some(seeds.clone()), Some(1), tier, "-seeded"));
+        v.push(cfg::<TKey, TVal>(Plan::Tail, 16, Some(seeds), Some(1), tier, "-seeded"));
     }
     v
 }
